@@ -2630,6 +2630,7 @@ class CallableType(FunctionLike):
             "ret_type": self.ret_type.serialize(),
             "fallback": self.fallback.serialize(),
             "name": self.name,
+            "special_sig": self.special_sig,
             # We don't serialize the definition (only used for error messages).
             "variables": [v.serialize() for v in self.variables],
             "is_ellipsis_args": self.is_ellipsis_args,
@@ -2656,6 +2657,7 @@ class CallableType(FunctionLike):
             deserialize_type(data["ret_type"]),
             Instance.deserialize(data["fallback"]),
             name=data["name"],
+            special_sig=data.get("special_sig"),
             variables=[cast(TypeVarLikeType, deserialize_type(v)) for v in data["variables"]],
             is_ellipsis_args=data["is_ellipsis_args"],
             implicit=data["implicit"],
@@ -2694,6 +2696,7 @@ class CallableType(FunctionLike):
         write_str_opt_list(data, self.arg_names)
         self.ret_type.write(data)
         write_str_opt(data, self.name)
+        write_str_opt(data, self.special_sig)
         write_type_list(data, self.variables)
         write_type_opt(data, self.type_guard)
         write_type_opt(data, self.type_is)
@@ -2720,6 +2723,7 @@ class CallableType(FunctionLike):
             read_type(data),
             fallback,
             name=read_str_opt(data),
+            special_sig=read_str_opt(data),
             variables=read_type_var_likes(data),
             is_ellipsis_args=is_ellipsis_args,
             implicit=implicit,
